@@ -98,6 +98,27 @@ def chunker_siblings(repo: Repo, L: Ledger, rule: str):
         L.check(a_s == cs, rule, f"{f.short}:chunk_start", "chunk_start == start + i*B", f"chunk start is {a_s}, expected start + i*buffer_size", f.loc(node))
         L.check(a_e == ce, rule, f"{f.short}:chunk_end", "chunk_end == min(end, chunk_start + B - 1)", f"chunk end is {a_e}, expected min(end, chunk_start + buffer_size - 1)", f.loc(node))
         lo, hi, step = info["range"]
+        # two-loop form: the range loop fills a container of chunk bounds, a second loop yields from it
+        # (for the reverse chunker from reversed(container)): the effective order is what counts
+        flipped = False
+        if info["yields"]:
+            from ..util import ancestors as _anc
+
+            yl = next((a for a in _anc(info["yields"][0][1]) if isinstance(a, ast.For)), None)
+            if yl is not None and not (isinstance(yl.iter, ast.Call) and dotted(yl.iter.func) == "range"):
+                it = yl.iter
+                if isinstance(it, ast.Call) and dotted(it.func) == "reversed" and len(it.args) == 1 and isinstance(it.args[0], ast.Name):
+                    flipped = True
+                elif not isinstance(it, ast.Name):
+                    raise AnalysisError(f"{f.short}: chunks are yielded from a loop over '{norm(it)[:50]}': order not understood")
+        if flipped:
+            # ascending 0..q reversed == descending q..0 and vice versa
+            if step == Lin.const(1) and lo == Lin.const(0):
+                lo, hi, step = hi - 1, Lin.const(-1), Lin.const(-1)
+            elif step == Lin.const(-1) and hi == Lin.const(-1):
+                lo, hi, step = Lin.const(0), lo + 1, Lin.const(1)
+            else:
+                raise AnalysisError(f"{f.short}: reversed() over a range({lo}, {hi}, {step}) container: order not understood")
         if name == "fwd":
             ok = lo == Lin.const(0) and hi == q + 1 and step == Lin.const(1)
             L.check(ok, rule, f"{f.short}:range", "i = 0, 1, …, (end-start)//B ascending", f"forward chunk index runs over range({lo}, {hi}, {step}), expected range(0, (end-start)//B + 1)", f.loc())
@@ -308,6 +329,36 @@ def row_iter_summary(repo: Repo, cls, func: Func, bind: dict | None = None, dept
         if not isinstance(tgt, ast.Name):
             return None
         iv, rv, base_type = None, tgt.id, None
+    elif kind in ("enum", "sub") and isinstance(tgt, ast.Name) and not (kind == "sub" and sub[1] == "row"):
+        # `for pair in enumerate(self.rows)`: pair[0] is the index, pair[1] the row, `yield pair` yields (index, row)
+        t_ = tgt.id
+        pieces = {f"{t_}[0]": "__idx__", f"{t_}[1]": "__row__"}
+
+        class _Sub(ast.NodeTransformer):
+            def visit_Subscript(self, n):
+                k = norm(n).replace(" ", "")
+                if k in pieces:
+                    return ast.copy_location(ast.Name(id=pieces[k], ctx=ast.Load()), n)
+                return self.generic_visit(n)
+
+            def visit_Name(self, n):
+                if n.id == t_ and isinstance(n.ctx, ast.Load):
+                    return ast.copy_location(ast.Tuple(elts=[ast.Name(id="__idx__", ctx=ast.Load()), ast.Name(id="__row__", ctx=ast.Load())], ctx=ast.Load()), n)
+                return n
+
+        import copy as _copy
+
+        new_body = [ast.fix_missing_locations(_Sub().visit(_copy.deepcopy(b))) if False else b for b in lp.body]
+        # deep copies would drag parent links along: rebuild the (small) loop body from source text instead
+        new_body = ast.parse("\n".join(ast.unparse(b) for b in lp.body)).body
+        new_body = [ast.fix_missing_locations(_Sub().visit(b)) for b in new_body]
+        for b in new_body:
+            for x in ast.walk(b):
+                ast.copy_location(x, lp) if not hasattr(x, "lineno") else None
+        lp = ast.For(target=ast.Tuple(elts=[ast.Name(id="__idx__", ctx=ast.Store()), ast.Name(id="__row__", ctx=ast.Store())], ctx=ast.Store()), iter=lp.iter, body=new_body, orelse=[])
+        ast.fix_missing_locations(lp)
+        iv, rv = "__idx__", "__row__"
+        base_type = sub[0] if kind == "sub" else None
     else:
         if kind == "sub" and sub[1] == "row":
             if not isinstance(tgt, ast.Name):
